@@ -107,7 +107,7 @@ def oprover(m, env, e, extra=()):
         pf[m.canon(k)] = [cf(f) for f in v]
     of = {}
     for k, v in env.ev.option_facts.items():
-        of[m.canon(k)] = [cf(f) for f in v]
+        of[(m.canon(k[0]), m.canon(k[1]))] = [cf(f) for f in v]
     return OProver(env, facts, env.ev, e.ctx, payload_facts=pf, option_facts=of)
 
 
